@@ -40,13 +40,22 @@ func (t *TaskExecutor[T]) ExecuteAt(identifier T, callback func(), executionTime
 		queuedElement.Cancel()
 	}
 
-	scheduledTask := t.Executor.ExecuteAt(func() {
-		callback()
-
+	var scheduledTask *ScheduledTask
+	scheduledTask = t.Executor.ExecuteAt(func() {
+		// the task stops being pending when it starts to run. It only runs if it is still the task that is
+		// registered for the identifier: a Cancel or a replacing ExecuteAt that came after the queue had already
+		// handed the task out has removed or replaced the entry, and must win. (Removing the entry after the
+		// callback instead would delete the entry of a task that the callback itself scheduled for the identifier.)
 		t.queuedElementsMutex.Lock()
-		defer t.queuedElementsMutex.Unlock()
+		if queuedElement, queuedElementExists := t.queuedElements.Get(identifier); !queuedElementExists || queuedElement != scheduledTask {
+			t.queuedElementsMutex.Unlock()
 
+			return
+		}
 		t.queuedElements.Delete(identifier)
+		t.queuedElementsMutex.Unlock()
+
+		callback()
 	}, executionTime)
 
 	if scheduledTask != nil {
